@@ -44,7 +44,7 @@ REQUIRED = {
             "spheres_1+": 30, "edges_1+": 30, "writes_2+": 40, "cfg_spheres_and_nodal_and_rewrite": 10,
             "cfg_highorder_spheres": 10, "cfg_cellfields_and_edges": 10, "cfg_bare": 4, "cfg_uint64_padded": 4,
             "kind_SCALARS": 40, "kind_VECTORS": 40, "kind_TENSORS": 40, "container_jax": 20, "parser_selftest_runs": 1,
-            "class:random": 10, "class:large_tables": 2, "class:d11a_rewrite": 4, "class:d11b_highorder_spheres": 4, "class:d11c_celldata_edges": 4,
+            "class:random": 10, "class:large_tables": 2, "name_shared_between_nodal_and_cell": 15, "class:d11a_rewrite": 4, "class:d11b_highorder_spheres": 4, "class:d11c_celldata_edges": 4,
             "class:each_dtype": 11, "class:uint64_padded": 2, "class:bare": 2, "class:history": 10,
             "histories": 60, "histories_two_writers_interleaved": 10, "history_ops": 250,
             "write_after_nodal": 20, "write_after_cell": 20, "write_after_overwrite": 8, "write_after_sphere": 15,
@@ -279,6 +279,12 @@ def _add_field(res, w, rng, sh, geo, what, dts=None, kind=None, p_replace=0.08, 
         replaced = True
     else:
         name = "%s%d_%s" % ("n" if what == "nodal" else "c", len(store), ["u", "sigma", "eqps", "T", "id"][int(rng.integers(0, 5))])
+        # the same name may legitimately be used for a nodal and for a cell array of one writer (they live in different sections)
+        other = sh.cell if what == "nodal" else sh.nodal
+        free = [k for k in other if k not in store]
+        if free and rng.random() < 0.25:
+            name = free[int(rng.integers(0, len(free)))]
+            res.count("name_shared_between_nodal_and_cell")
     if dt == "UNSIGNED_LONG" and will_pad and not allow_u64_pad:
         dt = "LONG"
     data, exp = _make_field(rng, nrec, kind, dt)
